@@ -45,7 +45,7 @@ TOLERANCES = {
     "formula": "|LogPdf - ref| <= K*eps*(sum|additive terms of the textbook formula| + sum_k|theta_k dlp/dtheta_k| + |x dlp/dx|), K=%d, eps=2^-53, "
                "ref and partials in mpmath at 40 digits; not judged if the bound exceeds 1e-6*max(1,|ref|)" % K_LP,
     "support": "exact: -Inf outside the support; continuous boundary points: -Inf or the limit of the formula; never NaN",
-    "normalisation": "|Q-1| <= %g, judged only if the same nodes/weights applied to the reference density give |Q_ref-I_ref| <= %g "
+    "normalisation": "|Q-1| <= %g (+ K*eps*4/|xi| for GEV / GPD), judged only if the same nodes/weights applied to the reference density give |Q_ref-I_ref| <= %g "
                      "(discrete: reference tail beyond the last summed atom <= %g)" % (Q_TOL, Q_CONV, Q_CONV),
     "cdf": "|Cdf - F_ref|, |exp(LogCdf) - F_ref| <= K*eps*(1 + |x f(x)| + sum_k|theta_k dF/dtheta_k|), K=%d; monotone up to the sum of the two "
            "tolerances; |dCdf/dx - f_ref| <= K*eps*f_ref*(1 + lp bound/eps) + K*eps*|dF bound|" % K_CDF,
@@ -651,7 +651,10 @@ def do_quad(e, out):
         return
     out.c('quad:judged')
     out.c('quad:judged:' + e['fam'])
-    if problems or abs(ql - 1) > Q_TOL:
+    qtol = mpf(Q_TOL)
+    if e['fam'] in ('gev', 'gpareto') and P[2] != 0:
+        qtol += K_LP * EPS * 4 / abs(P[2])   # textbook evaluation of 1 + xi*z for |xi| -> 0 (see _xi_extra)
+    if problems or abs(ql - 1) > qtol:
         out.v(e['case'], head + '|support-interior|normalisation',
               '%s(%s): integral of exp(LogPdf) over the support = %s (same nodes and weights on the reference density: 1%+.2e)%s' % (
                   e['fam'], wit['params'], mp.nstr(ql, 15), float(qr - 1), '; ' + '; '.join(problems[:3]) if problems else ''),
@@ -972,8 +975,10 @@ def wrap_ref_density(e, x):
     kind = e['kind']
     if kind == 'translation':
         f, P = base_of(e['base'])
-        y = x + M(e['c'])
-        if classify(f, P, y) != 'interior':
+        c = M(e['c'])
+        y = x + c
+        # the library sees the rounded sum: drop nodes that rounding moves onto / across an end point
+        if classify(f, P, y) != 'interior' or classify(f, P, mpf(float(x) + float(c))) != 'interior':
             return None
         return lp_inside(f, P, y)
     if kind == 'logtransform':
